@@ -206,7 +206,7 @@ CHECKS = {
     },
     "C09": {
         "text": ("Lean theorems (unbounded): the pre-order walk of every tree whose directories list children in bytewise name order is strictly ascending in "
-                 "ComparePath, below any prefix (walk_strictly_ascending, _below), a directory precedes everything under it (dir_before_contents), no path is listed twice (walk_lists_each_entry_once), and every path of a snapshot is visited by the walk of the tree the executable model builds from it, and nothing but those paths and the directories above them (walk_lists_every_entry, walk_lists_only_entries). "
+                 "ComparePath, below any prefix (walk_strictly_ascending, _below), a directory precedes everything under it (dir_before_contents), no path is listed twice (walk_lists_each_entry_once), and every path of a snapshot is visited by the walk of the tree the executable model builds from it, and nothing but those paths and the directories above them (walk_lists_every_entry, walk_lists_only_entries; for a parent-closed snapshot visited iff an entry: walk_lists_exactly_the_entries). "
                  "Correspondence: NewFS(dir).Walk on trees materialised on ext4 (all entry types, hard-link groups, xattrs, adversarial names) vs the executable "
                  "model fed an independent lstat/readlink/listxattr snapshot, and the executable spec (once-ness, order, stat equality, hard-link rule) on the Go output."),
         "note": ("Trusted: Lean kernel + standard axioms; 'stat matches lstat' is an OS fact decided by correspondence only; ReadDir order assumed bytewise "
